@@ -198,17 +198,23 @@ impl CertConsumer for ASN1Writer<'_> {
         // Note: ASN1 has multiple strings, this is BIT String
 
         // Strip off the end zeroes
-        let mut last_byte = s.len() - 1;
+        //
+        // Note: the input comes from a (peer-supplied) certificate, so an empty string and
+        // an all-zeroes named bit list must not underflow: both end up as the empty BIT STRING
+        let mut len = s.len();
         let mut num_of_zero = 0;
         if truncate {
-            while s[last_byte] == 0 {
-                last_byte -= 1;
+            while len > 0 && s[len - 1] == 0 {
+                len -= 1;
             }
-            // For the last valid byte, identifying the number of last bits
-            // that are 0s
-            num_of_zero = s[last_byte].trailing_zeros() as u8;
+
+            if len > 0 {
+                // For the last valid byte, identifying the number of last bits
+                // that are 0s
+                num_of_zero = s[len - 1].trailing_zeros() as u8;
+            }
         }
-        let s = &s[..(last_byte + 1)];
+        let s = &s[..len];
         self.append_tlv(0x03, s.len() + 1, |t| {
             t.buf[t.offset] = num_of_zero;
             let end_offset = t.offset + 1 + s.len();
@@ -307,5 +313,30 @@ impl CertConsumer for ASN1Writer<'_> {
             let end_offset = t.offset + data.len();
             t.buf[t.offset..end_offset].copy_from_slice(data);
         })
+    }
+}
+
+#[cfg(test)]
+mod tests {
+    use super::*;
+
+    #[test]
+    fn bitstr_of_zeroes_or_nothing_does_not_underflow() {
+        let mut buf = [0; 16];
+
+        // An all-zeroes named bit list (e.g. a key usage of 0): the empty BIT STRING
+        let mut w = ASN1Writer::new(&mut buf);
+        unwrap!(w.bitstr("", true, &[0, 0]));
+        assert_eq!(w.as_slice(), &[0x03, 0x01, 0x00]);
+
+        // An empty string
+        let mut w = ASN1Writer::new(&mut buf);
+        unwrap!(w.bitstr("", false, &[]));
+        assert_eq!(w.as_slice(), &[0x03, 0x01, 0x00]);
+
+        // Unchanged: trailing zero bytes and bits of a named bit list are dropped
+        let mut w = ASN1Writer::new(&mut buf);
+        unwrap!(w.bitstr("", true, &[0x06, 0x00]));
+        assert_eq!(w.as_slice(), &[0x03, 0x02, 0x01, 0x06]);
     }
 }
